@@ -2,7 +2,7 @@
    (pcapgo/ngwrite*.go) was given; a truncated file gives a true prefix.
    Property theorems only; proofs in Proofs/NgExec.v, NgRoundtrip.v (one packet block), NgFile.v (whole
    files), NgPrefix.v and NgPrefixFile.v (truncation). *)
-From GP Require Import Base NgModel NgIoProofs NgWp NgSafeProofs NgExec NgRoundtrip NgFile NgPrefix NgPrefixFile NgFuel NgPrefixOwn.
+From GP Require Import Base NgModel NgIoProofs NgWp NgSafeProofs NgExec NgRoundtrip NgFile NgPrefix NgPrefixFile NgFuel NgPrefixOwn NgUnmixed.
 Open Scope Z_scope.
 
 Definition new_class (r : Z * list pkt * Z * rst) : Z := fst (fst (fst r)).
@@ -108,6 +108,19 @@ Theorem C14_ng_roundtrip_file_partial : forall ro sec i0 ops,
   new_class r = 0 /\ end_class r = 1 /\ packets r = exp_pkts [] (WAddIf i0 :: ops).
 Proof. exact roundtrip_file. Qed.
 Print Assumptions C14_ng_roundtrip_file_partial.
+
+(* C14_ng_roundtrip with WantMixedLinkType = false, same scripts.  NewNgReader also reads the first
+   interface; the reader then returns exactly [exp_unmixed] (Proofs/NgUnmixed.v): the packets of
+   interfaces whose link type is that of the first interface, in order, with no ancillary link type
+   (-1); a packet of another link type is skipped, or - with ErrorOnMismatchingLinkType - the packets
+   before it are returned and the reading ends with ErrNgLinkTypeMismatch (class 3) instead of io.EOF. *)
+Theorem C14_ng_roundtrip_file_unmixed_partial : forall ro sec i0 ops,
+  ro_mixed ro = false -> sec_ok sec -> ops_ok [] (WAddIf i0 :: ops) -> zlen ops < 4294967290 ->
+  let r := write_cut_read ro sec i0 ops (length (write_file sec i0 ops)) in
+  let e := exp_unmixed (ro_errmis ro) (wi_link i0) [i0] ops in
+  new_class r = 0 /\ packets r = fst e /\ end_class r = snd e.
+Proof. exact roundtrip_file_u. Qed.
+Print Assumptions C14_ng_roundtrip_file_unmixed_partial.
 
 (* under ops_ok the writer accepts every call and the file is the section header followed by the blocks *)
 Theorem C14_ng_writer_accepts : forall sec i0 ops, ops_ok [] (WAddIf i0 :: ops) -> zlen ops < 4294967290 ->
@@ -285,3 +298,11 @@ Proof.
   split; [vm_compute; reflexivity|]. split; [lia|].
   eexists. split; [reflexivity|]. split; [unfold iface_ns; cbn; auto|]. split; [right; vm_compute; congruence|vm_compute; reflexivity].
 Qed.
+
+(* the sample script read with WantMixedLinkType = false and ErrorOnMismatchingLinkType: one packet, then the mismatch error *)
+Example C14_ng_unmixed_sample :
+  let r := write_cut_read (mkRo false true false false) sample_sec sample_i0 sample_ops
+                          (length (write_file sample_sec sample_i0 sample_ops)) in
+  (packets r, end_class r) = exp_unmixed true (wi_link sample_i0) [sample_i0] sample_ops /\ end_class r = 3 /\ length (packets r) = 1%nat.
+Proof. vm_compute. repeat split; reflexivity. Qed.
+
